@@ -223,6 +223,30 @@ def predicate(c):
                     else:
                         fails.append(("C15_no_settle_and_cancel", "%s: htlc %d failed after it "
                                       "was settled" % (where, r[1])))
+        # -- a resolution handed to the link is durable: the invoice re-read from the
+        #    store after the event (a fresh lookup, also after a registry restart) shows
+        #    the htlc in the state the resolution implies; catches silent no-op writes
+        stored = {}
+        for s in snaps.values():
+            for h in s["htlcs"]:
+                stored.setdefault(h["key"], []).append(h)
+                if h.get("resolved") is not None and h["resolved"] != (h["state"] != "accepted"):
+                    fails.append(("C15_resolution_durable", "%s: stored htlc %d is %s with%s resolve time"
+                                  % (where, h["key"], h["state"], "" if h["resolved"] else "out")))
+                if "chan" in h and h["key"] == 999999:
+                    fails.append(("C15_resolution_durable", "%s: stored circuit key (%d, %d) was never sent"
+                                  % (where, h["chan"], h["htlc"])))
+        for r in resolutions:
+            if r[0] == "fail" and r[3] not in JIT and not (kv and r[1] in vanished):
+                for h in stored.get(r[1], []):
+                    if h["state"] != "canceled":
+                        fails.append(("C15_resolution_durable", "%s: htlc %d failed towards the link (%s) "
+                                      "but the stored record is %s" % (where, r[1], r[3], h["state"])))
+        if ev[0] == "notify" and o["reply"][0] == "nil":
+            recs = stored.get(ev[1]["key"], [])
+            if len(recs) != 1 or recs[0]["state"] != "accepted":
+                fails.append(("C15_resolution_durable", "%s: htlc %d is held but the stored record is %s"
+                              % (where, ev[1]["key"], [h["state"] for h in recs] or "missing")))
         # -- replay verdicts: a recorded htlc that is notified again
         if ev[0] == "notify":
             key = ev[1]["key"]
@@ -798,7 +822,7 @@ def run(ctx):
         ctx.coqchk(["LV.Invoice.Props"])
     # coverage
     hist = {"event": {}, "reply": {}, "ntf": {}, "invoice_kind": {}, "backend": {}, "kind": {},
-            "amp_case_kinds": {}}
+            "amp_case_kinds": {}, "stored_chan_id_class": {}, "stored_htlc_id_class": {}}
 
     def bump(h, k):
         hist[h][k] = hist[h].get(k, 0) + 1
@@ -816,6 +840,23 @@ def run(ctx):
                 bump("ntf", n[0] + ":" + (n[4] if n[0] == "settle" else n[3]))
             if o["ev"][0] == "add":
                 bump("invoice_kind", o["ev"][1]["kind"])
+    # circuit-key domain actually stored (per backend): magnitude class of ChanID / HtlcID
+    hist["stored_chan_id_class"], hist["stored_htlc_id_class"] = {}, {}
+
+    def mag(v):
+        return ("<2^31" if v < 1 << 31 else "<2^32" if v < 1 << 32 else "<2^62" if v < 1 << 62
+                else "<2^63" if v < 1 << 63 else "alias-range" if 16000000 << 40 <= v < 16250000 << 40
+                else ">=2^63")
+    for c in rows:
+        seen = {}
+        for o in c["ops"]:
+            for sn in o["snap"]:
+                for h in sn["htlcs"]:
+                    if "chan" in h:
+                        seen[h["key"]] = (h["chan"], h["htlc"])
+        for ch, hi in seen.values():
+            bump("stored_chan_id_class", c["backend"] + ":" + mag(ch))
+            bump("stored_htlc_id_class", c["backend"] + ":" + mag(hi))
     hist["amp_case_kinds"] = {}
     for c in rows:
         for k in amp_kinds(c):
